@@ -110,10 +110,361 @@ def intGt (n : Int) : Val → Bool
   | .inf neg => neg
   | .nan => false
 
+/-- IEEE addition -/
+def add : Val → Val → Val
+  | .fin n1 m1 e1, .fin n2 m2 e2 =>
+    let e := if e1 ≤ e2 then e1 else e2
+    let a1 : Int := (if n1 then -1 else 1) * ((m1 * 2 ^ (e1 - e).toNat : Nat) : Int)
+    let a2 : Int := (if n2 then -1 else 1) * ((m2 * 2 ^ (e2 - e).toNat : Nat) : Int)
+    let sum := a1 + a2
+    if sum = 0 then .fin (n1 && n2) 0 0
+    else if 0 ≤ e then ofRat (decide (sum < 0)) (sum.natAbs * 2 ^ e.toNat) 1
+    else ofRat (decide (sum < 0)) sum.natAbs (2 ^ (-e).toNat)
+  | .nan, _ => .nan
+  | _, .nan => .nan
+  | .inf n1, .inf n2 => if n1 == n2 then .inf n1 else .nan
+  | .inf n1, .fin _ _ _ => .inf n1
+  | .fin _ _ _, .inf n2 => .inf n2
+
+/-- C `modf` on a finite double: integral part (toward zero, as an integer) and fractional part (same sign, exact) -/
+def modf (neg : Bool) (m : Nat) (e : Int) : Int × Val :=
+  let s : Int := if neg then -1 else 1
+  if 0 ≤ e then (s * ((m * 2 ^ e.toNat : Nat) : Int), .fin neg 0 0)
+  else
+    let d := 2 ^ (-e).toNat
+    (s * ((m / d : Nat) : Int), .fin neg (m % d) e)
+
+/-- outcome of `datetime.timedelta(seconds=<float>)` -/
+inductive TdResult where
+  | us (total : Int)      -- the interval in microseconds (before the range check of timedelta)
+  | nan                   -- ValueError
+  | overflow              -- OverflowError
+  deriving Repr, DecidableEq
+
+/-- `datetime.timedelta(seconds=x)` for a float `x`, as `_datetimemodule.c` computes it (`accum` + the final
+rounding of the leftover): whole seconds exactly; the fractional part is multiplied by 1e6 IN FLOATING POINT, its integral
+part is added, and what is left (a double in (−1, 1)) is rounded to the nearest microsecond, exact halves to the side
+that makes the total even -/
+def tdSeconds : Val → TdResult
+  | .nan => .nan
+  | .inf _ => .overflow
+  | .fin neg m e =>
+    let (ip, frac) := modf neg m e
+    let x := ip * 1000000
+    if isZero frac then .us x else
+    match mul (ofInt 1000000) frac with
+    | .fin n2 m2 e2 =>
+      let (ip2, left) := modf n2 m2 e2
+      let y := x + ip2
+      match left with
+      | .fin n3 m3 e3 =>
+        if m3 = 0 then .us y else
+        -- |left| compared with one half: m3 · 2^e3 ? 1/2  (e3 < 0 here)
+        let k := (-e3).toNat
+        let twice := 2 * m3
+        let half := 2 ^ k
+        let sgn : Int := if n3 then -1 else 1
+        if twice < half then .us y
+        else if half < twice then .us (y + sgn)
+        else .us (if y % 2 = 0 then y else y + sgn)
+      | _ => .nan
+    | _ => .overflow
+
+
 theorem rne_exact (c b : Nat) (hb : 0 < b) : rne (c * b) b = c := by
   unfold rne
   have h1 : c * b / b = c := Nat.mul_div_cancel c hb
   have h2 : c * b % b = 0 := Nat.mul_mod_left c b
   simp [h1, h2, hb]
+
+/-! ### exactness: dyadic values with a 53-bit numerator are fixed points of the rounding -/
+
+theorem two_pow_pos (n : Nat) : 0 < 2 ^ n := Nat.two_pow_pos n
+
+theorem pow_cancel (x y q : Nat) (h : x * 2 ^ q = y * 2 ^ q) : x = y :=
+  Nat.eq_of_mul_eq_mul_right (two_pow_pos q) h
+
+/-- `scaled a b e` is `(a·2^y, b·2^x)` with `e = x − y` -/
+theorem scaled_spec (a b : Nat) (e : Int) :
+    ∃ x y : Nat, e = (x : Int) - y ∧ scaled a b e = (a * 2 ^ y, b * 2 ^ x) := by
+  unfold scaled
+  by_cases h : 0 ≤ e
+  · exact ⟨e.toNat, 0, by omega, by simp [h]⟩
+  · exact ⟨0, (-e).toNat, by omega, by simp [h]⟩
+
+/-- if `a/b = V·2^(p−q)` and the exponent chosen is at most `p − q`, the scaled quotient is the integer `V·2^k` -/
+theorem scaled_exact (a b V p q x y k : Nat) (H : a * 2 ^ q = V * b * 2 ^ p) (hk : p + y = q + x + k) :
+    a * 2 ^ y = (V * 2 ^ k) * (b * 2 ^ x) := by
+  apply pow_cancel _ _ q
+  have h1 : a * 2 ^ y * 2 ^ q = (a * 2 ^ q) * 2 ^ y := by ac_rfl
+  have h2 : V * 2 ^ k * (b * 2 ^ x) * 2 ^ q = V * b * (2 ^ q * 2 ^ x * 2 ^ k) := by ac_rfl
+  have h3 : V * b * 2 ^ p * 2 ^ y = V * b * (2 ^ p * 2 ^ y) := by ac_rfl
+  rw [h1, h2, H, h3, ← Nat.pow_add, ← Nat.pow_add, ← Nat.pow_add, hk]
+
+/-- … and one exponent higher the scaled quotient is `V/2 < 2^52` -/
+theorem scaled_half (a b V p q x y : Nat) (hb : 0 < b) (hV : V < 2 ^ 53) (H : a * 2 ^ q = V * b * 2 ^ p)
+    (hk : x + q = p + 1 + y) : a * 2 ^ y < b * 2 ^ x * 2 ^ 52 := by
+  have h1 : (a * 2 ^ y * 2) * 2 ^ q = (V * (b * 2 ^ x)) * 2 ^ q := by
+    have e1 : (a * 2 ^ y * 2) * 2 ^ q = (a * 2 ^ q) * (2 ^ y * 2 ^ 1) := by rw [Nat.pow_one]; ac_rfl
+    have e2 : (V * (b * 2 ^ x)) * 2 ^ q = V * b * (2 ^ x * 2 ^ q) := by ac_rfl
+    have e3 : V * b * 2 ^ p * (2 ^ y * 2 ^ 1) = V * b * (2 ^ p * 2 ^ 1 * 2 ^ y) := by ac_rfl
+    rw [e1, e2, H, e3, ← Nat.pow_add, ← Nat.pow_add, ← Nat.pow_add, hk]
+  have h2 := pow_cancel _ _ q h1
+  have hpos : 0 < b * 2 ^ x := Nat.mul_pos hb (two_pow_pos x)
+  have h3 : V * (b * 2 ^ x) < 2 ^ 53 * (b * 2 ^ x) := Nat.mul_lt_mul_of_pos_right hV hpos
+  have h4 : (2 : Nat) ^ 53 * (b * 2 ^ x) = (b * 2 ^ x * 2 ^ 52) * 2 := by
+    have : (2 : Nat) ^ 53 = 2 ^ 52 * 2 := by decide
+    rw [this]; ac_rfl
+  omega
+
+/-- EXACTNESS.  If `a / b = V · 2^(p − q)` with `V < 2^53` (a dyadic value whose numerator fits the
+mantissa) and `p − q ≥ −1074` (not below the subnormal grid), rounding is the identity: the result
+is `M · 2^e` with `e ≤ p − q` and `M = V · 2^(p − q − e)`. -/
+theorem roundPos_exact (a b V p q : Nat) (ha : 0 < a) (hb : 0 < b) (hV : V < 2 ^ 53)
+    (H : a * 2 ^ q = V * b * 2 ^ p) (hsub : (q : Int) ≤ p + 1074) :
+    ∃ k : Nat, (roundPos a b).2 + k = (p : Int) - q ∧ (roundPos a b).1 = V * 2 ^ k := by
+  have hla1 : 2 ^ a.log2 ≤ a := Nat.log2_self_le (by omega)
+  have hlb2 : b < 2 ^ (b.log2 + 1) := Nat.lt_log2_self
+  have hVpos : 0 < V := by
+    cases V with
+    | zero =>
+      have h0 : 0 < a * 2 ^ q := Nat.mul_pos ha (two_pow_pos q)
+      rw [H] at h0; simp at h0
+    | succ n => omega
+  -- the first estimate of the exponent is at most one too high
+  have hA : (a.log2 : Int) - b.log2 - 52 ≤ (p : Int) - q + 1 := by
+    by_cases hc : (a.log2 : Int) - b.log2 - 52 ≤ (p : Int) - q + 1
+    · exact hc
+    · exfalso
+      have hn : b.log2 + 1 + p + 53 ≤ a.log2 + q := by omega
+      have h1 : 2 ^ (b.log2 + 1 + p + 53) ≤ 2 ^ (a.log2 + q) := Nat.pow_le_pow_right (by decide) hn
+      have h2 : 2 ^ (a.log2 + q) ≤ a * 2 ^ q := by
+        rw [Nat.pow_add]; exact Nat.mul_le_mul_right _ hla1
+      have h3 : V * b < 2 ^ 53 * 2 ^ (b.log2 + 1) := by
+        calc V * b < 2 ^ 53 * b := Nat.mul_lt_mul_of_pos_right hV hb
+          _ ≤ 2 ^ 53 * 2 ^ (b.log2 + 1) := Nat.mul_le_mul_left _ (Nat.le_of_lt hlb2)
+      have h4 : V * b * 2 ^ p < 2 ^ 53 * 2 ^ (b.log2 + 1) * 2 ^ p := Nat.mul_lt_mul_of_pos_right h3 (two_pow_pos p)
+      have h5 : 2 ^ 53 * 2 ^ (b.log2 + 1) * 2 ^ p = 2 ^ (b.log2 + 1 + p + 53) := by
+        have : 2 ^ 53 * 2 ^ (b.log2 + 1) * 2 ^ p = 2 ^ (b.log2 + 1) * 2 ^ p * 2 ^ 53 := by ac_rfl
+        rw [this, ← Nat.pow_add, ← Nat.pow_add]
+      omega
+  unfold roundPos
+  simp only
+  -- e1 ≤ p − q
+  have hE1 : (if (scaled a b ((a.log2 : Int) - b.log2 - 52)).1 < (scaled a b ((a.log2 : Int) - b.log2 - 52)).2 * 2 ^ 52
+      then (a.log2 : Int) - b.log2 - 52 - 1 else (a.log2 : Int) - b.log2 - 52) ≤ (p : Int) - q := by
+    by_cases hlt : (a.log2 : Int) - b.log2 - 52 ≤ (p : Int) - q
+    · split <;> omega
+    · have heq : (a.log2 : Int) - b.log2 - 52 = (p : Int) - q + 1 := by omega
+      obtain ⟨x, y, hxy, hs⟩ := scaled_spec a b ((a.log2 : Int) - b.log2 - 52)
+      have := scaled_half a b V p q x y hb hV H (by omega)
+      rw [hs]
+      simp only [this, if_true]
+      omega
+  generalize (if (scaled a b ((a.log2 : Int) - b.log2 - 52)).1 < (scaled a b ((a.log2 : Int) - b.log2 - 52)).2 * 2 ^ 52
+      then (a.log2 : Int) - b.log2 - 52 - 1 else (a.log2 : Int) - b.log2 - 52) = e1 at hE1 ⊢
+  have hE : (if e1 < -1074 then -1074 else e1) ≤ (p : Int) - q := by split <;> omega
+  generalize (if e1 < -1074 then (-1074 : Int) else e1) = e at hE ⊢
+  obtain ⟨x, y, hxy, hs⟩ := scaled_spec a b e
+  obtain ⟨k, hk⟩ : ∃ k : Nat, (p : Int) - q - e = k := ⟨((p : Int) - q - e).toNat, by omega⟩
+  refine ⟨k, by omega, ?_⟩
+  rw [hs]
+  simp only
+  rw [scaled_exact a b V p q x y k H (by omega)]
+  exact rne_exact _ _ (Nat.mul_pos hb (two_pow_pos x))
+
+/-- `v` is exactly `± V · 2^(p − q)`, in the form the rounding produces it (`m = V·2^k`, `e = p − q − k`) -/
+def IsDy (v : Val) (neg : Bool) (V p q : Nat) : Prop :=
+  ∃ (m : Nat) (e : Int) (k : Nat), v = .fin neg m e ∧ e + k = (p : Int) - q ∧ m = V * 2 ^ k
+
+/-- rounding an exact quotient `a/b = V·2^(p−q)` (`0 < V < 2^53`, `−1074 ≤ p − q ≤ 0`) is exact -/
+theorem ofRat_dy (neg : Bool) (a b V p q : Nat) (ha : 0 < a) (hb : 0 < b) (hV : V < 2 ^ 53)
+    (H : a * 2 ^ q = V * b * 2 ^ p) (hsub : (q : Int) ≤ p + 1074) (hle : p ≤ q) :
+    IsDy (ofRat neg a b) neg V p q := by
+  obtain ⟨k, hk, hm⟩ := roundPos_exact a b V p q ha hb hV H hsub
+  have hVpos : 0 < V := by
+    cases V with
+    | zero =>
+      have h0 : 0 < a * 2 ^ q := Nat.mul_pos ha (two_pow_pos q)
+      rw [H] at h0; simp at h0
+    | succ n => omega
+  have hm0 : (roundPos a b).1 ≠ 0 := by
+    rw [hm]; exact Nat.ne_of_gt (Nat.mul_pos hVpos (two_pow_pos k))
+  have hr : inRange (roundPos a b).1 (roundPos a b).2 = true := by
+    unfold inRange
+    have : (roundPos a b).2 ≤ 0 := by omega
+    simp [this]
+  refine ⟨(roundPos a b).1, (roundPos a b).2, k, ?_, hk, hm⟩
+  unfold ofRat
+  simp [Nat.ne_of_gt ha, hm0, hr]
+
+/-- integers below `2^53` convert exactly -/
+theorem ofNat_dy (n : Nat) (h0 : 0 < n) (hn : n < 2 ^ 53) : IsDy (ofInt (n : Int)) false n 0 0 := by
+  have h1 : decide ((n : Int) < 0) = false := by simp
+  have h2 : (n : Int).natAbs = n := by simp
+  unfold ofInt
+  rw [h1, h2]
+  exact ofRat_dy false n 1 n 0 0 h0 (by decide) hn (by simp) (by omega) (Nat.le_refl _)
+
+/-- the product of two exact values whose product still has a 53-bit numerator is exact -/
+theorem mul_dy (x y : Val) (n1 n2 : Bool) (V1 p1 q1 V2 p2 q2 : Nat)
+    (hx : IsDy x n1 V1 p1 q1) (hy : IsDy y n2 V2 p2 q2) (h1 : 0 < V1) (h2 : 0 < V2) (hV : V1 * V2 < 2 ^ 53)
+    (hle : p1 + p2 ≤ q1 + q2) (hsub : ((q1 + q2 : Nat) : Int) ≤ (p1 + p2 : Nat) + 1074) :
+    IsDy (mul x y) (n1 != n2) (V1 * V2) (p1 + p2) (q1 + q2) := by
+  obtain ⟨m1, e1, k1, rfl, he1, rfl⟩ := hx
+  obtain ⟨m2, e2, k2, rfl, he2, rfl⟩ := hy
+  have hVV : 0 < V1 * V2 := Nat.mul_pos h1 h2
+  have hpos : 0 < V1 * 2 ^ k1 * (V2 * 2 ^ k2) :=
+    Nat.mul_pos (Nat.mul_pos h1 (two_pow_pos _)) (Nat.mul_pos h2 (two_pow_pos _))
+  simp only [mul]
+  by_cases hs : 0 ≤ e1 + e2
+  · -- e1 + e2 ≥ 0 together with p ≤ q forces e1 + e2 = 0 and k1 = k2 = 0 … handled uniformly through the exponents
+    simp only [hs, if_true]
+    obtain ⟨j, hj⟩ : ∃ j : Nat, e1 + e2 = j := ⟨(e1 + e2).toNat, by omega⟩
+    have hjj : (e1 + e2).toNat = j := by omega
+    rw [hjj]
+    have := ofRat_dy (n1 != n2) (V1 * 2 ^ k1 * (V2 * 2 ^ k2) * 2 ^ j) 1 (V1 * V2) (k1 + k2 + j) 0
+      (Nat.mul_pos hpos (two_pow_pos j)) (by decide) hV
+      (by rw [Nat.pow_add, Nat.pow_add]; simp only [Nat.pow_zero, Nat.mul_one]; ac_rfl) (by omega) (by omega)
+    have hz : k1 + k2 + j = 0 := by omega
+    obtain ⟨m, e, k, hv, hek, hmk⟩ := this
+    exact ⟨m, e, k, hv, by omega, hmk⟩
+  · simp only [hs, if_false]
+    obtain ⟨j, hj⟩ : ∃ j : Nat, -(e1 + e2) = j := ⟨(-(e1 + e2)).toNat, by omega⟩
+    have hjj : (-(e1 + e2)).toNat = j := by omega
+    rw [hjj]
+    have := ofRat_dy (n1 != n2) (V1 * 2 ^ k1 * (V2 * 2 ^ k2)) (2 ^ j) (V1 * V2) (k1 + k2) j
+      hpos (two_pow_pos j) hV
+      (by rw [Nat.pow_add]; ac_rfl) (by omega) (by omega)
+    obtain ⟨m, e, k, hv, hek, hmk⟩ := this
+    exact ⟨m, e, k, hv, by omega, hmk⟩
+
+/-- dividing an exact value by an exact power of two is exact -/
+theorem div_pow2_dy (x y : Val) (n1 n2 : Bool) (V1 p1 q1 p2 q2 : Nat)
+    (hx : IsDy x n1 V1 p1 q1) (hy : IsDy y n2 1 p2 q2) (h1 : 0 < V1) (hV : V1 < 2 ^ 53)
+    (hle : p1 + q2 ≤ q1 + p2) (hsub : ((q1 + p2 : Nat) : Int) ≤ (p1 + q2 : Nat) + 1074) :
+    IsDy (div x y) (n1 != n2) V1 (p1 + q2) (q1 + p2) := by
+  obtain ⟨m1, e1, k1, rfl, he1, rfl⟩ := hx
+  obtain ⟨m2, e2, k2, rfl, he2, rfl⟩ := hy
+  have hm2 : 1 * 2 ^ k2 ≠ 0 := Nat.ne_of_gt (Nat.mul_pos (by decide) (two_pow_pos k2))
+  have hpos : 0 < V1 * 2 ^ k1 := Nat.mul_pos h1 (two_pow_pos _)
+  simp only [div, hm2, if_false]
+  by_cases hs : 0 ≤ e1 - e2
+  · simp only [hs, if_true]
+    obtain ⟨j, hj⟩ : ∃ j : Nat, e1 - e2 = j := ⟨(e1 - e2).toNat, by omega⟩
+    have hjj : (e1 - e2).toNat = j := by omega
+    rw [hjj]
+    have := ofRat_dy (n1 != n2) (V1 * 2 ^ k1 * 2 ^ j) (1 * 2 ^ k2) V1 (k1 + j) k2
+      (Nat.mul_pos hpos (two_pow_pos j)) (Nat.mul_pos (by decide) (two_pow_pos k2)) hV
+      (by rw [Nat.pow_add]; ac_rfl) (by omega) (by omega)
+    obtain ⟨m, e, k, hv, hek, hmk⟩ := this
+    exact ⟨m, e, k, hv, by omega, hmk⟩
+  · simp only [hs, if_false]
+    obtain ⟨j, hj⟩ : ∃ j : Nat, -(e1 - e2) = j := ⟨(-(e1 - e2)).toNat, by omega⟩
+    have hjj : (-(e1 - e2)).toNat = j := by omega
+    rw [hjj]
+    have := ofRat_dy (n1 != n2) (V1 * 2 ^ k1) (1 * 2 ^ k2 * 2 ^ j) V1 k1 (k2 + j)
+      hpos (Nat.mul_pos (Nat.mul_pos (by decide) (two_pow_pos k2)) (two_pow_pos j)) hV
+      (by rw [Nat.pow_add]; ac_rfl) (by omega) (by omega)
+    obtain ⟨m, e, k, hv, hek, hmk⟩ := this
+    exact ⟨m, e, k, hv, by omega, hmk⟩
+
+/-- the exact value of such a double is what it says: `V · 2^p / 2^q` -/
+theorem IsDy.toRat_eq (v : Val) (V p q : Nat) (h : IsDy v false V p q) (hle : p ≤ q) :
+    ∃ num den, toRat v = some (num, den) ∧ 0 < den ∧ num * (2 ^ q : Nat) = (V * 2 ^ p : Nat) * (den : Int) := by
+  obtain ⟨m, e, k, rfl, he, rfl⟩ := h
+  simp only [toRat]
+  by_cases hs : 0 ≤ e
+  · have hk0 : k = 0 ∧ e = 0 ∧ p = q := by omega
+    obtain ⟨rfl, rfl, rfl⟩ := hk0
+    simp only [Int.le_refl, if_true]
+    refine ⟨_, _, rfl, by decide, ?_⟩
+    simp
+  · simp only [hs, if_false]
+    obtain ⟨j, hj⟩ : ∃ j : Nat, -e = j := ⟨(-e).toNat, by omega⟩
+    have hjj : (-e).toNat = j := by omega
+    rw [hjj]
+    refine ⟨_, _, rfl, two_pow_pos j, ?_⟩
+    have hq : q + k = p + j := by omega
+    have : V * 2 ^ k * 2 ^ q = V * 2 ^ p * 2 ^ j := by
+      have e1 : V * 2 ^ k * 2 ^ q = V * (2 ^ q * 2 ^ k) := by ac_rfl
+      have e2 : V * 2 ^ p * 2 ^ j = V * (2 ^ p * 2 ^ j) := by ac_rfl
+      rw [e1, e2, ← Nat.pow_add, ← Nat.pow_add, hq]
+    simp only [Int.reduceNeg, Bool.false_eq_true, if_false, Int.one_mul]
+    exact_mod_cast this
+
+theorem digits10_le (f n : Nat) : digits10 f n ≤ f := by
+  induction f generalizing n with
+  | zero => simp [digits10]
+  | succ f ih =>
+    simp only [digits10]
+    split
+    · omega
+    · have := ih (n / 10); omega
+
+/-- a decimal integer literal below `2^53` is read exactly (`float("123")`) -/
+theorem ofDec_nat_dy (n : Nat) (h0 : 0 < n) (hn : n < 2 ^ 53) : IsDy (ofDec false n 0) false n 0 0 := by
+  have hl : n.log2 < 53 := (Nat.log2_lt (by omega)).mpr hn
+  have hd := digits10_le (n.log2 + 2) n
+  unfold ofDec
+  have h1 : ¬ ((digits10 (n.log2 + 2) n : Int) + 0 < -400) := by omega
+  have h2 : ¬ ((400 : Int) < (digits10 (n.log2 + 2) n : Int) - 1 + 0) := by omega
+  simp only [Nat.ne_of_gt h0, if_false, h1, h2, Int.le_refl, if_true, Int.toNat_zero, Nat.pow_zero, Nat.mul_one]
+  exact ofRat_dy false n 1 n 0 0 h0 (by decide) hn (by simp) (by omega) (Nat.le_refl _)
+
+theorem ofInt_one_dy : IsDy (ofInt 1) false 1 0 0 := ofNat_dy 1 (by decide) (by decide)
+
+theorem ofInt_eight_dy : IsDy (ofInt 8) false 1 3 0 := by
+  obtain ⟨m, e, k, hv, he, hm⟩ := ofNat_dy 8 (by decide) (by decide)
+  exact ⟨m, e, k + 3, hv, by omega, by rw [hm, Nat.pow_add]; omega⟩
+
+/-- `0.0 + x` for a positive finite `x = m·2^e`: the exact sum handed to the rounding -/
+theorem add_zero_left (m : Nat) (e : Int) (hm : 0 < m) :
+    add (.fin false 0 0) (.fin false m e) =
+      (if 0 ≤ e then ofRat false (m * 2 ^ e.toNat) 1 else ofRat false m (2 ^ (-e).toNat)) := by
+  have hcast : ∀ x : Nat, 0 < x → ((x : Int) ≠ 0 ∧ ¬ ((x : Int) < 0) ∧ (x : Int).natAbs = x) := by
+    intro x hx; exact ⟨by omega, by omega, Int.natAbs_natCast x⟩
+  by_cases h : 0 ≤ e
+  · have h2 := hcast (m * 2 ^ e.toNat) (Nat.mul_pos hm (two_pow_pos _))
+    have e2 : (e - 0).toNat = e.toNat := by simp
+    simp only [add, h, if_true, Int.sub_self, Int.toNat_zero, Nat.pow_zero, Nat.mul_one, Nat.zero_mul,
+      Bool.false_eq_true, if_false, Int.one_mul, Int.natCast_zero, Int.zero_add, e2, Int.le_refl]
+    simp only [h2.1, h2.2.1, h2.2.2, if_false, decide_false]
+  · have h2 := hcast m hm
+    simp only [add, h, if_false, Int.sub_self, Int.toNat_zero, Nat.pow_zero, Nat.mul_one, Nat.zero_mul,
+      Bool.false_eq_true, Int.one_mul, Int.natCast_zero, Int.zero_add]
+    simp only [h2.1, h2.2.1, h2.2.2, if_false, decide_false]
+
+/-- `0.0 + x` for an exact value `x` (the first `seconds += …` of `parse_duration`, whose `seconds` starts as the int 0) -/
+theorem add_zero_dy (y : Val) (V : Nat) (hy : IsDy y false V 0 0) (h1 : 0 < V) (hV : V < 2 ^ 53) :
+    IsDy (add (.fin false 0 0) y) false V 0 0 := by
+  obtain ⟨m, e, k, rfl, he, rfl⟩ := hy
+  have hpos : 0 < V * 2 ^ k := Nat.mul_pos h1 (two_pow_pos k)
+  rw [add_zero_left _ _ hpos]
+  by_cases hk : k = 0
+  · subst hk
+    have : e = 0 := by omega
+    subst this
+    simp only [Int.le_refl, if_true, Int.toNat_zero, Nat.pow_zero, Nat.mul_one]
+    exact ofRat_dy false V 1 V 0 0 h1 (by decide) hV (by simp) (by omega) (Nat.le_refl _)
+  · have hneg : ¬ (0 : Int) ≤ e := by omega
+    have e4 : (-e).toNat = k := by omega
+    simp only [hneg, if_false, e4]
+    exact ofRat_dy false (V * 2 ^ k) (2 ^ k) V 0 0 hpos (two_pow_pos k) hV (by simp) (by omega) (Nat.le_refl _)
+
+/-- `timedelta(seconds=x)` for an exact whole number of seconds is that many million microseconds -/
+theorem tdSeconds_whole (v : Val) (V : Nat) (h : IsDy v false V 0 0) : tdSeconds v = .us ((V : Int) * 1000000) := by
+  obtain ⟨m, e, k, rfl, he, rfl⟩ := h
+  by_cases hk : k = 0
+  · subst hk
+    have : e = 0 := by omega
+    subst this
+    simp [tdSeconds, modf, isZero]
+  · have hneg : ¬ (0 : Int) ≤ e := by omega
+    have e4 : (-e).toNat = k := by omega
+    have hd : V * 2 ^ k / 2 ^ k = V := Nat.mul_div_cancel V (two_pow_pos k)
+    have hm : V * 2 ^ k % 2 ^ k = 0 := Nat.mul_mod_left V (2 ^ k)
+    simp only [tdSeconds, modf, hneg, if_false, e4, hd, hm, isZero, beq_self_eq_true, if_true,
+      Bool.false_eq_true, Int.one_mul]
 
 end Py.F64
